@@ -51,6 +51,8 @@ pub enum EncCall {
     TraitPci { half: Half, #[serde(with = "hexo")] header: Option<Vec<u8>>, #[serde(with = "hexv")] data: Vec<u8> },
     TraitIana { half: Half, #[serde(with = "hexo")] header: Option<Vec<u8>>, #[serde(with = "hexv")] data: Vec<u8> },
     TraitSpdm { half: Half, secured: bool, #[serde(with = "hexo")] header: Option<Vec<u8>>, #[serde(with = "hexv")] data: Vec<u8> },
+    /// generate_spdm_msg_packet_bytes with any MessageType variant (index into MSG_TYPES)
+    TraitTyped { half: Half, mt: u8, #[serde(with = "hexv")] data: Vec<u8> },
     // ---- the six control response encoders
     RespSetEndpointId { cc: u8, assign: u8, alloc: u8 },
     RespGetEndpointId { cc: u8, etype: u8, idtype: u8, fairness: bool },
@@ -92,6 +94,7 @@ impl EncCall {
             TraitIana { .. } => "trait_iana",
             TraitSpdm { secured: false, .. } => "trait_spdm",
             TraitSpdm { secured: true, .. } => "trait_secured",
+            TraitTyped { .. } => "trait_typed",
             RespSetEndpointId { .. } => "resp_set_endpoint_id",
             RespGetEndpointId { .. } => "resp_get_endpoint_id",
             RespUuid { .. } => "resp_get_endpoint_uuid",
